@@ -30,7 +30,7 @@ Targets == {T1, T2, T3, T4, T5}
 
 AN == Ident("an", FALSE, StrS(<<100, 121, 110>>, "dyn"))
 ArgForms == {<<"none", "", Undefined>>, <<"colon", "title", Undefined>>, <<"str2", "title", Undefined>>,
-             <<"str2", "a_b", Undefined>>,          \* a string argument is a name as it stands (an underscore is not a modifier separator)
+             <<"str2", "a_b", Undefined>>, <<"colon", "inputValue", Undefined>>,     \* (<arg>Modifiers: the whole name, also when it ends in "Value")          \* a string argument is a name as it stands (an underscore is not a modifier separator)
              <<"computed2", "", AN>>}
 ModForms == {<<"none", <<>>>>, <<"suffix", <<"trim">>>>, <<"array", <<"trim", "lazy">>>>, <<"array", <<>>>>}
 
